@@ -1795,6 +1795,7 @@ class GtkDocCommentBlockParser(object):
                                     error('malformed "Attributes:" tag will be ignored:',
                                           position, None, marker_pos, original_line)
                                     transformed = None
+                                    break
 
                             if transformed:
                                 transformed = '%s %s' % (ann_name, transformed.strip())
@@ -1810,12 +1811,18 @@ class GtkDocCommentBlockParser(object):
                                           position, None, marker_pos, original_line)
                                 else:
                                     comment_block.annotations[ann_name] = docannotation
+                                    if comment_block.annotations.position is None:
+                                        comment_block.annotations.position = position
                     else:
                         ann_name, options = self._parse_annotation(position,
                                                                column_offset + tag_fields_start,
                                                                line,
                                                                '%s %s' % (ann_name, tag_fields))
                         comment_block.annotations[ann_name] = options
+                        # The identifier line had no annotations: diagnostics
+                        # about this one point at the tag
+                        if comment_block.annotations.position is None:
+                            comment_block.annotations.position = position
 
                     continue
                 elif tag_name_lower == TAG_DESCRIPTION:
